@@ -6,7 +6,7 @@ import Dashu.Proofs.Panic.Utf8
   C16 — operations terminate and panic only where the documentation says so.   PARTIAL.
 
   The model of this property is the documentation itself: `Dashu.Spec.Panics.verdict` (a transcription of the
-  rustdoc, 158 operations).  The driver `drive_panic` prints `verdict` for every case line and the real call
+  rustdoc, 146 operations).  The driver `drive_panic` prints `verdict` for every case line and the real call
   (debug and release builds, supervised worker) must end the same way.  What is PROVED here:
 
    (1) the transcription is total and can only name documented kinds;
